@@ -137,8 +137,13 @@ impl DurationLiteral {
         // The fraction in units of 10^-15 seconds
         let fraction = value.femptos as u128 * seconds_per_unit as u128;
         let fraction_seconds = (fraction / FixedPoint::FRACTIONAL_UNITS as u128) as i64;
-        let fraction_nanoseconds =
-            ((fraction % FixedPoint::FRACTIONAL_UNITS as u128) / 1_000_000) as i32;
+        let sub_second = fraction % FixedPoint::FRACTIONAL_UNITS as u128;
+        // The resolution is one nanosecond: anything finer cannot be
+        // represented and is rejected rather than truncated
+        if sub_second % 1_000_000 != 0 {
+            return None;
+        }
+        let fraction_nanoseconds = (sub_second / 1_000_000) as i32;
         let interval = Duration::seconds(whole_seconds)
             .checked_add(Duration::new(fraction_seconds, fraction_nanoseconds))?;
         Some(Self {
@@ -171,6 +176,10 @@ impl DurationLiteral {
     pub fn checked_milliseconds(millis: FixedPoint) -> Option<Self> {
         let whole_seconds = Duration::seconds(i64::try_from(millis.whole / 1_000).ok()?);
         let whole_milliseconds = Duration::milliseconds((millis.whole % 1_000) as i64);
+        // The resolution is one nanosecond (see checked_from_units)
+        if millis.femptos % 1_000_000_000 != 0 {
+            return None;
+        }
         let fraction_nanoseconds = Duration::nanoseconds((millis.femptos / 1_000_000_000) as i64);
         let interval = whole_seconds
             .checked_add(whole_milliseconds)?
